@@ -625,6 +625,34 @@ func r10FanOut(c *Ctx, rule string) {
 			}
 		})
 	}
+	// a fan-out that writes to the ranged client's socket itself (bypassing SendEvent) is held to the same test
+	for fn := range c.P.AllFuncs() {
+		if fn.Blocks == nil || fn.Parent() == nil || FuncPkgPathOf(fn) != PkgServer || len(fn.Params) != 2 {
+			continue
+		}
+		EachCall(fn, func(call ssa.CallInstruction) {
+			name := CalleeName(call)
+			if !strings.HasPrefix(name, "(*github.com/gorilla/websocket.Conn).Write") {
+				return
+			}
+			recv := call.Common().Args[0]
+			if !DerivesFrom(recv, func(v ssa.Value) bool { return v == ssa.Value(fn.Params[1]) }) {
+				return
+			}
+			ok := false
+			for _, f := range FactsAt(call.Block()) {
+				if f.Truth && DerivesFrom(f.Cond, IsFieldLoad(PkgServer+".Client", "Authenticated")) {
+					ok = true
+				}
+			}
+			construct := "fan-out " + shortCallee(name) + " on the ranged client's socket"
+			if ok {
+				c.R.Ok(rule, FuncShort(fn), construct, c.pos(call.Pos()), "the write is control-dependent on the ranged client's Authenticated flag", true)
+			} else {
+				c.R.Bad(rule, FuncShort(fn), construct, c.pos(call.Pos()), "a Clients.Range callback writes to every stored websocket without testing Authenticated: a connection that has not logged in receives live events")
+			}
+		})
+	}
 	if n == 0 {
 		c.R.Anchor(rule, "a Clients.Range fan-out calling SendEvent")
 	}
